@@ -440,9 +440,74 @@ def skeleton(t):
     return (k,) + tuple(skeleton(x) if isinstance(x, tuple) else x for x in t[1:])
 
 
+def _has_bound(t):
+    if not isinstance(t, tuple):
+        return False
+    if t and t[0] == "bound":
+        return True
+    return any(_has_bound(x) for x in t if isinstance(x, tuple))
+
+
+def _find_ifexp(t):
+    """first conditional expression (pre-order) whose test has no bound variable -> the subterm, else None"""
+    if not isinstance(t, tuple) or not t:
+        return None
+    if t[0] == "ifexp" and not _has_bound(t[1]):
+        return t
+    if t[0] in ("lambda", "func"):
+        return None
+    for x in t:
+        if isinstance(x, tuple):
+            r = _find_ifexp(x)
+            if r is not None:
+                return r
+    return None
+
+
+def _replace(t, old, new):
+    if t is old or t == old:
+        return new
+    if not isinstance(t, tuple):
+        return t
+    return tuple(_replace(x, old, new) if isinstance(x, tuple) else x for x in t)
+
+
+def lift_conditionals(paths, limit=64):
+    """conditional expressions inside results become path splits: `x if c else y` and `if c: x else: y` coincide"""
+    out = []
+    work = list(paths)
+    while work and limit > 0:
+        conds, res = work.pop(0)
+        ie = _find_ifexp(res)
+        if ie is None:
+            out.append((conds, res))
+            continue
+        limit -= 1
+        work.insert(0, (conds + (_neg(ie[1]),), _replace(res, ie, ie[3])))
+        work.insert(0, (conds + (ie[1],), _replace(res, ie, ie[2])))
+    out.extend(work)
+    # drop paths whose conditions contradict each other (c and not c)
+    keep = []
+    for conds, res in out:
+        cs = set(conds)
+        if any(_neg(c) in cs for c in cs):
+            continue
+        # duplicates of one condition are irrelevant
+        seen, cc = set(), []
+        for c in conds:
+            if c not in seen:
+                seen.add(c)
+                cc.append(c)
+        keep.append((tuple(cc), res))
+    return keep
+
+
 def compare_paths(got, want):
     """-> 'equal' | 'different' (same skeleton, different content) | 'incomparable'"""
     if got == want:
+        return "equal"
+    got, want = lift_conditionals(got), lift_conditionals(want)
+    if got == want or sorted(got, key=repr) == sorted(want, key=repr):
         return "equal"
     if len(got) == len(want) and all(skeleton(a) == skeleton(b) for a, b in zip(got, want)):
         return "different"
